@@ -78,5 +78,26 @@ package main
 //	enc-listend-56                          encbuffer.go listEnd <56 -> <=56        pass         yes    >=19  part=values|oracle=encoder-emits-noncanonical
 //	enc-bigint-length                       encbuffer.go writeBigInt length         FAIL         yes    >=20  part=values|leaf=*big.Int|oracle=decode-of-encoding-fails
 //
+//	seeded-b-bigint-leading-zero-over-32    decode.go decodeBigInt: leading-zero    pass         yes     12   type=*big.Int|input-class=int-leading-zero|oracle=noncanonical-accepted
+//	  (independently seeded, /verif/seeded/C16b)  check lost in the >32-byte branch                               (also big.Int, field:/elem:/optional:/tail: hosts, Transaction/StateAccount/BlockInfo|leading-zero-int)
+//
+// The seeded change above was MISSED by the first version of this check (quick and thorough exit 0). What
+// excluded it: a non-canonical integer reached a big.Int decoder only (1) in the alphabet strings, whose
+// payload is at most 5 bytes, and (2) in the 55/56/255/256 header mutations, whose payload is 0xaa.. and never
+// starts with a zero byte; integers longer than 32 bytes were only ever produced canonically (generated
+// values, chain types). decodeBigInt has three size classes (single byte / fits the 32-byte uintbuf / heap
+// buffer) and the seeded change removed the leading-zero check from the third one only. Added in response:
+// scalars.go (part a4: payload length classes 0..257, thorough ..65537, x contents x header forms x claimed
+// size -1/0/+1 x host position x 25 scalar types = 112 targets, 13 722 inputs / ~310 000 evaluations in quick,
+// < 1 s) and the NoncanonicalInt chain family (transactions, accounts, block infos with zero-padded integers
+// of 2..256 bytes, 287 cases). Same oracle as every other string part: accept iff recogniser + conformance
+// model say canonical image of the type, and accepted => re-encoding == input.
+//
+// Regression after adding part (a4), with D21/D22 now listed as known (so exit 1 means an unlisted signature):
+// all 26 patches exit 1 in the quick tier; the seeded one three times with the same 12 signatures. The host-
+// prefixed scalar targets raise the signature counts of the integer / single-byte mutants (m43-bigint 9,
+// m43-bytearray 5, m43-bytes 17, m44-bigint 13, bool 5, enc-string-7f 6, enc-bytearray1 6; the rest are
+// unchanged or capped at 20 listed).
+//
 // Dropped as equivalent for the property: removing the ErrElemTooLarge test in Stream.Kind (willRead still
 // refuses the read, only the error kind changes; the repository's own tests notice the error kind).
